@@ -846,3 +846,13 @@ V("kn-tables-not-declared", ["C19"], KN, "fire", (IGF, "        for name in tabl
 V("kn-assign-instead-of-add", ["C07"], KN, "fire", (IGF, "                body.append(L.AssignAdd(A[multi_index], expression))", "                body.append(L.Assign(A[multi_index], expression))"))
 V("kn-fw-cache-ignores-rule", ["C11"], KN, "fire", (IGF, "                key = (quadrature_rule, factor_index, blockdata.all_factors_piecewise)", "                key = (\"fw\",)"))
 V("kn-benign-rename", ["C01"], KN, "benign", (IGF, "        all_preparts = []\n        all_quadparts = []\n", "        all_preparts: list = []\n        all_quadparts: list = []\n"))
+EGF = "ffcx/codegeneration/expression_generator.py"
+EK = ["EXPR-KERNEL"]
+V("ek-component-index-swapped", ["C04"], EK, "fire", (EGF, "                indices = [A_indices[0], fi_ci[1]] + list(A_indices[1:])", "                indices = [fi_ci[1], A_indices[0]] + list(A_indices[1:])"))
+V("ek-points-minus-one", ["C04"], EK, "fire", (EGF, "            quadparts = [L.ForRange(iq, 0, num_points, body=body)]", "            quadparts = [L.ForRange(iq, 0, num_points - 1, body=body)]"))
+V("ek-piecewise-inside-after", ["C04"], EK, "fire", (EGF, "        parts += self.generate_geometry_tables()\n        parts += self.generate_piecewise_partition()\n", "        parts += self.generate_geometry_tables()\n"))
+V("ek-assign", ["C07"], EK, "fire", (EGF, "                body.append(L.AssignAdd(A[multi_index], Brhs))", "                body.append(L.Assign(A[multi_index], Brhs))"))
+V("ek-first-factor-for-all-components", ["C04"], EK, "fire", (EGF, "            for fi_ci in blockdata.factor_indices_comp_indices:\n                f = self.get_var(F.nodes[fi_ci[0]][\"expression\"])\n                Brhs = L.float_product([f] + arg_factors)\n                indices",
+                                                               "            for fi_ci in blockdata.factor_indices_comp_indices:\n                f = self.get_var(F.nodes[blockdata.factor_indices_comp_indices[0][0]][\"expression\"])\n                Brhs = L.float_product([f] + arg_factors)\n                indices"))
+V("ek-benign", ["C04"], EK, "benign", (EGF, "        all_preparts = []\n        all_quadparts = []\n\n        preparts, quadparts = self.generate_quadrature_loop()\n        all_preparts += preparts\n        all_quadparts += quadparts\n",
+                                        "        all_preparts, all_quadparts = self.generate_quadrature_loop()\n        all_preparts, all_quadparts = list(all_preparts), list(all_quadparts)\n"))
